@@ -129,6 +129,13 @@ CHECKS = {
         "prefixes of a real report to `fclones remove --dry-run` (no command for a path that is not in the report).",
    note="escaping fidelity (stfu8) is decided by executing the real encoder/decoder; the spec contributes the reader state machine and the enumeration",
    tech="TLC model checking of the reader state machine + bounded-exhaustive round-trip and truncation replay through the real writer/readers"),
+ "C09": dict(cat="model_checking", sec="5 C09",
+   text="Walk.tla states declaratively which entries the scan selects (depth as documented, hidden, ignore files that take effect where the walk enters, --follow-links / --symbolic-links, dangling "
+        "links and cycles, --one-fs, several / nested / repeated roots); TLC evaluates Selected on the abstract description of seeded real trees and is the oracle for the real "
+        "`group --rf-over 0 -f json` run with the same options: the selected path set must be equal and free of duplicates. Size and pattern predicates come from a reference matcher that is "
+        "checked against Glob.tla's TLC vectors in the same run.",
+   note="ignore rules limited to name, dir/ and *.ext; depth limits are not combined with --follow-links; one ignore file per directory; no hidden roots",
+   tech="TLC-evaluated declarative spec (Walk.tla) as oracle for randomized real runs"),
 }
 
 def main():
